@@ -284,3 +284,38 @@ Proof.
     - apply Forall_forall. intros; exact I. }
   exact H.
 Qed.
+
+(* ---------------------------------------------------------------- MDP softmax table, row by row *)
+Lemma msoftmax_rows_thm : forall ex, exp_like ex -> forall T qm,
+  Forall (fun q => q <> []) qm -> (eqSmall T 0 = true -> Forall separated qm) ->
+  length (msoftmax_policy ex T qm) = length qm /\
+  forall s, (s < length qm)%nat ->
+    length (row (msoftmax_policy ex T qm) s) = length (row qm s) /\
+    is_dist (row (msoftmax_policy ex T qm) s) /\
+    agrees (row (msoftmax_policy ex T qm) s) (msoftmax_prob ex T qm s).
+Proof.
+  intros ex Hex T qm Hne Hsep. unfold msoftmax_policy, msoftmax_prob, row.
+  split; [apply map_length|]. intros s Hs.
+  assert (Hin : In (nth s qm []) qm) by (apply nth_In; exact Hs).
+  rewrite (nth_indep (map (softmax_policy ex T) qm) [] (softmax_policy ex T [])) by (rewrite map_length; exact Hs).
+  rewrite map_nth.
+  pose proof (proj1 (Forall_forall _ _) Hne _ Hin) as Hq.
+  assert (Hs' : eqSmall T 0 = true -> separated (nth s qm [])).
+  { intros E. apply (proj1 (Forall_forall _ _) (Hsep E)). exact Hin. }
+  destruct (softmax_dist_thm ex Hex T _ Hq Hs') as [L D].
+  split; [exact L|]. split; [exact D|]. apply softmax_table_eq_query_thm; assumption.
+Qed.
+
+(* row-shift invariance: moving each state row by its own constant does not change the table
+   (softmax regime; the greedy regime T ~ 0 is greedy_shift) *)
+Lemma msoftmax_row_shift_thm : forall ex, exp_like ex -> forall T cs qm,
+  eqSmall T 0 = false -> Forall (fun q => q <> []) qm -> length cs = length qm ->
+  Forall2 veq (msoftmax_policy ex T (shift_rows cs qm)) (msoftmax_policy ex T qm).
+Proof.
+  intros ex Hex T cs qm ET. revert cs. induction qm as [|q qm IH]; intros cs Hne Hl.
+  - destruct cs; [constructor| discriminate].
+  - destruct cs as [|c cs]; [discriminate|]. inversion Hne; subst. cbn in Hl.
+    unfold msoftmax_policy, shift_rows in *. cbn [combine map fst snd]. constructor.
+    + apply softmax_shift_thm; [exact Hex| assumption|]. intros E. rewrite E in ET. discriminate.
+    + apply IH; [assumption| lia].
+Qed.
